@@ -170,8 +170,51 @@ pub fn enumerate(w: &mut World, op: &Value, bid: usize, modes: &[Mode], out: &mu
 	e0["b"] = json!(bid);
 	e0["boundaries"] = json!(hits);
 	e0["obs"] = w.obs();
+	let e0_ok = e0["res"] == "ok";
 	out.push(denull(e0).to_string());
 	let regs_after = w.regs();
+	// a torn stored-transaction file: every truncation length of the file the operation wrote
+	if hits.iter().any(|h| h == "store_tx") && e0_ok {
+		let wn = op["w"].as_str().unwrap_or("w1").to_string();
+		let sl = op["sl"].as_str().unwrap_or("").to_string();
+		if let Some(id) = w.slates.get(&sl).and_then(|r| r.id) {
+			let path = format!("{}/wallet_data/saved_txs/{}.grintx", w.wallets[&wn].dir, id);
+			if let Ok(full) = std::fs::read(&path) {
+				let all = std::env::var("VERIF_TIER").map(|t| t == "thorough").unwrap_or(false);
+				let n = full.len();
+				let lens: Vec<usize> = if all {
+					(0..n).collect()
+				} else {
+					let mut v = vec![0, 1, 2, 3, 7, n / 4, n / 2, n / 2 + 1, n - 3, n - 2, n - 1];
+					v.retain(|x| *x < n);
+					v.dedup();
+					v
+				};
+				let (mut okc, mut errc, mut panicc, mut first_panic) = (0, 0, 0, -1i64);
+				for l in lens.iter() {
+					std::fs::write(&path, &full[..*l]).unwrap();
+					let r = w.with(&wn, |wi, _| wi.get_stored_tx(&format!("{}", id)).map(|x| x.is_some()));
+					match r {
+						Outcome::Ok(_) => okc += 1,
+						Outcome::Err(_) => errc += 1,
+						Outcome::Panic(_) => {
+							panicc += 1;
+							if first_panic < 0 {
+								first_panic = *l as i64;
+							}
+						}
+					}
+				}
+				std::fs::write(&path, &full).unwrap();
+				out.push(
+					json!({"ev": "trunc", "b": bid, "w": wn, "sl": sl, "len_full": n, "lengths": lens.len(),
+						"ok": okc, "err": errc, "panic": panicc, "first_panic_len": first_panic, "res": "ok",
+						"op": op["ev"], "obs": w.obs()})
+					.to_string(),
+				);
+			}
+		}
+	}
 	let base_post = probe_cancel_all(w);
 	for k in 1..=n {
 		for mode in modes {
